@@ -290,3 +290,24 @@ Section ObjectsInstance.
     intros s h m Vs Hh N. apply two_histories_objects; auto.
   Qed.
 End ObjectsInstance.
+
+(* ------------------------------------------------------------------ check-then-fill in place: the race *)
+(* two entries, both threads look up key 2 (present in the source): alone, or one after the other, both find it;
+   if thread 1 runs its test after thread 0 inserted the first entry only, it looks 2 up in a partial table *)
+Definition two_words : list (nat * nat) := [(1, 10); (2, 20)]%nat.
+
+Lemma fill_sequential_ok :
+  let c := frun two_words 2 2 [false; false; false; false; true; true] in
+  f0 c = FDone (Some 20%nat) /\ f1 c = FDone (Some 20%nat).
+Proof. split; reflexivity. Qed.
+
+Lemma fill_race_loses :
+  let c := frun two_words 2 2 [false; false; true; true] in
+  f1 c = FDone None /\ tfind 2 two_words = Some 20%nat.
+Proof. split; reflexivity. Qed.
+
+(* whatever the schedule, a thread that passes its test on an EMPTY table and fills alone gets the right answer:
+   single-threaded behaviour is unchanged (why only a concurrent first use in a fresh process can show it) *)
+Lemma fill_single_thread_ok : forall k, In k (map fst two_words) ->
+  f0 (frun two_words k k [false; false; false; false]) = FDone (tfind k two_words).
+Proof. intros k [<-|[<-|[]]]; reflexivity. Qed.
